@@ -184,6 +184,23 @@ def register_volume_intersects(reg):
         r.vals = dict(pos=pos, R=R, ip=ip, inr=inr, cir=cir, convex=convex, bodies=bodies, contains_other=contains_other, lo=mesh.fields["_lo"], hi=mesh.fields["_hi"])
         return r
 
+    def kernel_facts(I, a, b, K, both_scaled):
+        """K1-K7 for the ordered pair (a, b); `overlap`, the FCL answer and the boolean-intersection answer belong to the unordered pair."""
+        ov, sc = K["overlap"], K["sc"]
+        # the very terms the procedure computes (numpy norm is a function of its argument: models_shapely._norm_of)
+        dc = MS.norm_of_difference(I, a["pos"], b["pos"])
+        di = MS.norm_of_difference(I, a["ip"], b["ip"])
+        facts = [sv_implies(compare(">", dc, arith("+", a["R"], b["R"])), sv_not(ov))]  # K1
+        if both_scaled:  # K2
+            facts.append(sv_implies(compare("<", di, arith("+", a["inr"], b["inr"])), ov))
+            facts.append(sv_implies(compare(">", di, arith("+", a["cir"], b["cir"])), sv_not(ov)))
+        facts.append(sv_implies(ov, sv_and(*[sv_and(compare("<=", a["lo"][k], b["hi"][k]), compare("<=", b["lo"][k], a["hi"][k])) for k in range(3)])))  # K3
+        facts.append(sv_implies(sc, ov))  # K4
+        facts.append(sv_implies(sv_and(a["convex"], b["convex"], sv_not(sc)), sv_not(ov)))  # K5
+        facts.append(sv_implies(sv_and(sv_not(sc), compare("==", a["bodies"], 1), compare("==", b["bodies"], 1)), iff(ov, sv_or(a["contains_other"], b["contains_other"]))))  # K6
+        facts.append(iff(K["empty"], sv_not(ov)))  # K7
+        return facts
+
     def setup(I, env):
         eng = I.eng
         K = dict(log=[], sc=eng.fresh_bool("fcl_surface_collision"), overlap=eng.fresh_bool("overlap"), empty=eng.fresh_bool("boolean_intersection_is_empty"))
@@ -203,19 +220,10 @@ def register_volume_intersects(reg):
             return t
 
         A.fields["intersect"] = BuiltinFn("intersect", boolean_intersect)
-        a, b, ov, sc = A.vals, B.vals, K["overlap"], K["sc"]
-        dc = hypot_of(eng, "centre_distance", dist3sq(a["pos"], b["pos"]))
-        di = hypot_of(eng, "interior_point_distance", dist3sq(a["ip"], b["ip"]))
-        eng.assume(sv_implies(compare(">", dc, arith("+", a["R"], b["R"])), sv_not(ov)))  # K1
-        if scaled == 0:  # K2 (both shapes precomputed)
-            eng.assume(sv_implies(compare("<", di, arith("+", a["inr"], b["inr"])), ov))
-            eng.assume(sv_implies(compare(">", di, arith("+", a["cir"], b["cir"])), sv_not(ov)))
-        eng.assume(sv_implies(ov, sv_and(*[sv_and(compare("<=", a["lo"][k], b["hi"][k]), compare("<=", b["lo"][k], a["hi"][k])) for k in range(3)])))  # K3
-        eng.assume(sv_implies(sc, ov))  # K4
-        eng.assume(sv_implies(sv_and(a["convex"], b["convex"], sv_not(sc)), sv_not(ov)))  # K5
-        eng.assume(sv_implies(sv_and(sv_not(sc), compare("==", a["bodies"], 1), compare("==", b["bodies"], 1)), iff(ov, sv_or(a["contains_other"], b["contains_other"]))))  # K6
-        eng.assume(iff(K["empty"], sv_not(ov)))  # K7
-        env.vars.update(self=A, other=B, triedReversed=False, _K=K)
+        B.fields["intersect"] = BuiltinFn("intersect", boolean_intersect)
+        for fact in kernel_facts(I, A.vals, B.vals, K, scaled == 0):
+            eng.assume(fact)
+        env.vars.update(self=A, other=B, triedReversed=False, _K=K, _scaled=scaled)
 
     def post(I, env, outcome):
         eng = I.eng
@@ -233,19 +241,48 @@ def register_volume_intersects(reg):
         else:
             stage = "pass1_2_bounding_balls_and_boxes"
         eng.check(f"{oname}#{stage}.result_agrees_with_overlap", iff(I.truth(outcome[1]), K["overlap"]))
+        # order independence: every order's answer equals overlap (obligation above, for ALL pairs), and the kernel facts about
+        # overlap are the same facts for the swapped pair -- so A.intersects(B) == B.intersects(A).  (Running the procedure a
+        # second time symbolically with swapped operands triples the cost of this contract; the replay driver does it on real solids.)
+        eng.check(f"{oname}#symmetry.kernel_facts_hold_for_the_swapped_pair", sv_and(*kernel_facts(I, env.vars["other"].vals, env.vars["self"].vals, K, env.vars["_scaled"] == 0)))
 
-    reg.add(
-        C.Contract(
-            f"{RG}:MeshVolumeRegion.intersects",
-            params=dict(self=C.Const(None), other=C.Const(None), triedReversed=C.Const(False)),
-            setup=setup,
-            post=post,
-            inline_all=True,
-            note="volume/volume arm; relative to the kernel axioms K1-K7",
-            properties=("C04",),
-        ),
-        key=f"{RG}:MeshVolumeRegion.intersects[volume]",
+    def replay(inputs, clause):
+        """Real regions: a small box nested in a non-convex (notched) cube, a box floating in the notch, crossing boxes;
+        both orders against the emptiness of the exact intersection."""
+        import warnings
+
+        warnings.filterwarnings("ignore")
+        from scenic.core.regions import BoxRegion, EmptyRegion, MeshVolumeRegion
+
+        h = 3.0
+        outer = BoxRegion(dimensions=(6, 6, 6)).difference(BoxRegion(dimensions=(3, 3, 3), position=(h, h, h)))
+        if not isinstance(outer, MeshVolumeRegion):
+            return None
+        cases = [
+            ("1-box nested in the notched cube at (-1.5,-1.5,-1.5)", BoxRegion(dimensions=(1, 1, 1), position=(-1.5, -1.5, -1.5)), outer),
+            ("0.5-box floating in the notch at (2.5,2.5,2.5)", BoxRegion(dimensions=(0.5, 0.5, 0.5), position=(2.5, 2.5, 2.5)), outer),
+            ("2-box crossing a face of the notched cube", BoxRegion(dimensions=(2, 2, 2), position=(-3, 0, 0)), outer),
+            ("two far apart boxes", BoxRegion(dimensions=(1, 1, 1), position=(10, 0, 0)), BoxRegion(dimensions=(1, 1, 1))),
+        ]
+        for name, a, b in cases:
+            truth = not isinstance(a.intersect(b), EmptyRegion)
+            for x, y, order in ((a, b, "A.intersects(B)"), (b, a, "B.intersects(A)")):
+                got = bool(x.intersects(y))
+                if got != truth:
+                    return f"A = {name}, B = the other solid: {order} = {got} but the exact intersection is {'non-empty' if truth else 'empty'}"
+        return None
+
+    contract = C.Contract(
+        f"{RG}:MeshVolumeRegion.intersects",
+        params=dict(self=C.Const(None), other=C.Const(None), triedReversed=C.Const(False)),
+        setup=setup,
+        post=post,
+        inline_all=True,
+        replay=replay,
+        note="volume/volume arm; relative to the kernel axioms K1-K7",
+        properties=("C04",),
     )
+    reg.add(contract, key=f"{RG}:MeshVolumeRegion.intersects[volume]")
 
 
 # ===================================================================================================
@@ -258,12 +295,12 @@ def register_contains_object(reg):
     def verts(eng, tag):
         return [[eng.fresh_real(f"{tag}.v{i}.{c}") for c in "xyz"] for i in range(NV)]
 
-    def maxdist(eng, name, vs, q):
-        ds = [hypot_of(eng, f"{name}{i}", dist3sq(v, q)) for i, v in enumerate(vs)]
-        m = ds[0]
-        for d in ds[1:]:
-            m = sv_ite(compare(">", d, m), d, m)
-        return m
+    def maxdist(I, vs, q):
+        """max_i |v_i - q|: the very term numpy.max(numpy.linalg.norm(vertices - q, axis=1)) evaluates to in the model"""
+        from pyvc import builtins_model as BM
+
+        ds = [MS.norm_of_difference(I, v, q) for v in vs]
+        return BM.mmax(I, *ds) if len(ds) > 1 else ds[0]
 
     def setup(I, env):
         eng = I.eng
@@ -355,14 +392,14 @@ def register_contains_object(reg):
         for q, is_obj_point in ((opos, pos_in_obj), (osample, True)):  # (c)
             qv = make_vector(*q)
             cq = region_contains(qv)
-            rad = maxdist(eng, "obj_vertex_distance_from_candidate", ov, q)
+            rad = maxdist(I, ov, q)
             dq = sd_of(tuple(q))
             absd = sv_ite(compare(">=", dq, 0), dq, arith("-", 0, dq))
             eng.assume(sv_implies(is_obj_point, sv_and(sv_implies(sv_not(cq), sv_not(ins)), sv_implies(sv_and(cq, compare(">", absd, rad)), ins))))
         mid = tuple(arith("/", arith("+", a, b), 2) for a, b in zip(a_lo, a_hi))
         for c_, is_reg_point in ((mid, region_contains(make_vector(*mid))), (ssample, True)):  # (d)
-            rc = maxdist(eng, "region_vertex_distance_from_candidate", sv, c_)
-            om = maxdist(eng, "obj_vertex_distance_from_region_candidate", ov, c_)
+            rc = maxdist(I, sv, c_)
+            om = maxdist(I, ov, c_)
             eng.assume(sv_implies(sv_and(is_reg_point, compare(">", om, rc)), sv_not(ins)))
         eng.assume(iff(diff_empty, ins))  # (e)
         K["log"].clear()
